@@ -17,6 +17,10 @@ WEAK = {"Termination_WeakDeleteOk.cfg": "Act_C09_NodeFinalizer", "Termination_We
         "Termination_Defect.cfg": "Inv_C09_NoLeak", "Termination_DefectRestart.cfg": "Inv_C09_NoLeakStrict"}
 
 
+def behaviours(run):
+    return tc.generate(run, NSIM[run.tier][0], NSIM[run.tier][1], with_term_sys=True, with_drain_sys=run.tier == "thorough", with_fine=True)
+
+
 def check(run):
     run.rule = ("behaviours = TLC simulation of Termination.tla (random deep interleavings of NodeClaim-finalize, Node-finalize and "
                 "eviction-queue reconciles with a failing API/provider call anywhere, pods/volumes/instance leaving, NotReady, clock "
@@ -27,7 +31,7 @@ def check(run):
     thorough = run.tier == "thorough"
     models = ["Termination_MC.cfg"] + (["Termination_MCfine.cfg", "Termination_MCbig.cfg", "Termination_Live.cfg"] if thorough else [])
     tc.parallel_tlc(run, "Termination", models, WEAK, coverage=thorough, workers=6 if thorough else 4)
-    behs = tc.generate(run, NSIM[run.tier][0], NSIM[run.tier][1], with_term_sys=True, with_drain_sys=thorough, with_fine=True)
+    behs = behaviours(run)
     files = tc.record(run, behs)
     info, total = tc.scan(files, len(behs))
     for b, k in zip(behs, info):
@@ -45,6 +49,6 @@ def check(run):
 
 
 def replay(run, path):
-    body = json.load(open(path))
-    raise vlib.InfraError("replay of termination traces: re-run `bin/check C09` with VERIF_SEED=%s; the failing trace is embedded in %s"
-                          % (body.get("seed"), path))
+    """Re-execute the failing behaviour on the current tree and re-validate it (behaviours are a deterministic
+    function of tier and seed, so the replay file only needs to name them)."""
+    tc.replay(run, path, behaviours)
